@@ -77,12 +77,31 @@ ByteRange(e, unit) ==
     ELSE [lo |-> e.addr, hi |-> e.addr + (IF e.ty \in {"ByteL", "EnumL"} THEN 2 ELSE Size(e.ty))]
 Partial(a, b) == /\ a.lo < b.hi /\ b.lo < a.hi /\ a.lo # b.lo
                  /\ ~(a.lo <= b.lo /\ b.hi <= a.hi) /\ ~(b.lo <= a.lo /\ a.hi <= b.hi)
-Overlapping(t, unit) ==
-    LET tab == Tables[t]
-        raw == {k \in 1..Len(tab) : tab[k].ty \in RawTypes /\ Size(tab[k].ty) > 0}
-    IN {tab[k].id : k \in {k \in raw : \E j \in raw : j # k /\ Partial(ByteRange(tab[k], unit), ByteRange(tab[j], unit))}}
-TabOverlap2 == [t \in 1..Len(Tables) |-> Overlapping(t, 2)]
-TabOverlap1 == [t \in 1..Len(Tables) |-> Overlapping(t, 1)]
+\* byte ranges are constant-level tables (TLC caches those); the pairwise comparison then works on integers only
+IsRaw(e) == e.ty \in RawTypes /\ Size(e.ty) > 0
+TabRange2 == [t \in 1..Len(Tables) |-> [k \in 1..Len(Tables[t]) |->
+                 IF IsRaw(Tables[t][k]) THEN ByteRange(Tables[t][k], 2) ELSE [lo |-> 0, hi |-> 0]]]
+TabRange1 == [t \in 1..Len(Tables) |-> [k \in 1..Len(Tables[t]) |->
+                 IF IsRaw(Tables[t][k]) THEN ByteRange(Tables[t][k], 1) ELSE [lo |-> 0, hi |-> 0]]]
+\* k and j overlap partially iff one of them starts strictly inside the other and ends beyond it.  Decided in linear
+\* time through an index "ends of the entries starting at byte a" (a pairwise comparison costs TLC seconds per table).
+SeqMax(q, z) == Wr!FoldLeft(LAMBDA acc, x : IF x > acc THEN x ELSE acc, z, q)
+SeqMin(q, z) == Wr!FoldLeft(LAMBDA acc, x : IF x < acc THEN x ELSE acc, z, q)
+OverlapIds(t, rng) ==
+    LET raw   == {k \in 1..Len(rng) : rng[k].hi > rng[k].lo}
+        maxl  == SeqMax([k \in 1..Len(rng) |-> rng[k].hi - rng[k].lo], 0)
+        base  == SeqMin([k \in 1..Len(rng) |-> IF k \in raw THEN rng[k].lo ELSE 1000000], 1000000) - maxl
+        top   == SeqMax([k \in 1..Len(rng) |-> rng[k].hi], base)
+        ends  == Wr!FoldLeft(LAMBDA acc, k : IF k \in raw THEN [acc EXCEPT ![rng[k].lo - base + 1] = @ \cup {rng[k].hi}] ELSE acc,
+                          [a \in 1..(top - base + 1) |-> {}], [k \in 1..Len(rng) |-> k])
+        EndsAt(a) == ends[a - base + 1]
+        straddled == {k \in raw : \E d \in 1..(rng[k].hi - rng[k].lo - 1) : \E h \in EndsAt(rng[k].lo + d) : h > rng[k].hi}
+        straddler == {j \in raw : \E d \in 1..maxl : \E h \in EndsAt(rng[j].lo - d) : h > rng[j].lo /\ h < rng[j].hi}
+    IN {Tables[t][k].id : k \in straddled \cup straddler}
+\* only the tables (and addressing units) the spans of this batch refer to are analysed
+UsedTabs(mb) == {Spans[i].tab : i \in {i \in 1..N : Spans[i].api = "runtime" /\ Spans[i].ok /\ Spans[i].modbus = mb}}
+TabOverlap2 == [t \in 1..Len(Tables) |-> IF t \in UsedTabs(TRUE) THEN OverlapIds(t, TabRange2[t]) ELSE {}]
+TabOverlap1 == [t \in 1..Len(Tables) |-> IF t \in UsedTabs(FALSE) THEN OverlapIds(t, TabRange1[t]) ELSE {}]
 JudgeOverlap(sp) ==
     IF sp.api # "runtime" \/ ~sp.ok THEN {}
     ELSE {"C12.Overlap:" \o id : id \in (IF sp.modbus THEN TabOverlap2[sp.tab] ELSE TabOverlap1[sp.tab])}
